@@ -100,15 +100,28 @@ def h_preempt(ex, dll, L, kind, victim, windows=(1, 1), hold='1/1000', two=False
         if len(w.log) == n_before:
             break
     info = {'victim': victim, 'preempted_at': pre.where, 'lines_executed': pre.count}
+    # the pre-emption belongs to the transfer under test: the follow-ups run unperturbed
+    node.run_job = node.__class__.run_job.__get__(node)
     early = Msg.__new__(Msg)
     early.src, early.dst, early.kind, early.pdu2, early.L, early.dll = sa, sb, kind, m.pdu2, L + 2, dll
     early.dp, early.pf, early.ps, early.prio, early.payload = m.dp, m.pf, m.ps, 6, [(9 * j + 4) % 256 for j in range(L + 2)]
     early.broadcast, early.connection = m.broadcast, (kind == 'p2p')
     r_early = early.send()
     ex.claim('idle_soon_after_completion.next_transfer_accepted', r_early is True, dict(info, quiet_since=str(w.now)))
+    more = []
+    if dll != 'j1939-21' and L > 60:
+        # J1939-22: idle means the whole pool is back - together with `early` the full advertised concurrency
+        # (8 RTS/CTS or 4 BAM sessions) must be accepted at once
+        for j in range((8 if kind == 'p2p' else 4) - 1):
+            x = Msg.__new__(Msg)
+            x.src, x.dst, x.kind, x.pdu2, x.L, x.dll = sa, sb, kind, m.pdu2, L + 10 + j, dll
+            x.dp, x.pf, x.ps, x.prio, x.payload = m.dp, m.pf, m.ps, 6, [(11 * t + j) % 256 for t in range(L + 10 + j)]
+            x.broadcast, x.connection = m.broadcast, (kind == 'p2p')
+            more.append((x, x.send()))
+        ex.claim('idle_soon_after_completion.full_pool_available', all(r is True for x, r in more), dict(info, accepted=[r for x, r in more].count(True) + (1 if r_early is True else 0)))
     w.run(until=w.now + T(8) + Fraction(6, 100) * npk)
     ex.claim('job_threads_alive', sa.alive() and sb.alive(), dict(info, dead=[repr(s.node.dead) for s in stacks if s.node.dead], spin=[s.name for s in stacks if s.node.spin]))
-    expect = [m] + ([early] if r_early is True else [])
+    expect = [m] + ([early] if r_early is True else []) + [x for x, r in more if r is True]
     if second['msg'] is not None:
         # J1939-21 allows one transfer per pair: the second call may be refused (False) while the first is in progress
         if second['ret'] is True:
